@@ -287,3 +287,75 @@ def single_output(rng, d):
     for n in d["nodes"]:
         n[2] = n is keep
     return d
+
+
+# ---------------------------------------------------------------- name stress: names that are `_`-joins of other names
+def _rename(d, mp):
+    return {"name": d.get("name", "top"), "bbs": [],
+            "nodes": [[mp[n], t, o, sorted(mp[f] for f in fi)] for n, t, o, fi in d["nodes"]]}
+
+
+def gen_namejoin(rng, max_nodes=20):
+    """inputs a..h, gates m, n, p ...; an inverter/buffer of a gate with >= 2 operands is named after those operands joined with
+    `_` (a_b = not(m), m = and(a, b)), so that different node sets can have the same sorted-and-joined name list"""
+    kind = rng.choice(["tree", "reconv", "multi", "dag"])
+    d = gen_case_circuit(rng, kind, max_nodes=max_nodes - 4)
+    nodes = [list(n) for n in d["nodes"]]
+    # extra single-operand consumers on top of multi-operand gates
+    k = 0
+    for n in list(nodes):
+        if len(n[3]) >= 2 and rng.random() < 0.5 and len(nodes) < max_nodes:
+            nodes.append([f"__x{k}", rng.choice(["not", "buf"]), rng.random() < 0.7, [n[0]]])
+            k += 1
+    ins = [n[0] for n in nodes if n[1] == "input"]
+    if len(ins) > 8:
+        return gen_namejoin(rng, max_nodes)
+    mp, used = {}, set()
+    for i, n in enumerate(ins):
+        mp[n] = "abcdefgh"[i]
+        used.add(mp[n])
+    pool = iter([c for c in "mnpqrstuvwxyz"] + [f"m{i}" for i in range(1, 60)])
+    by = {n[0]: n for n in nodes}
+    # topological order: operands before consumers
+    order, seen = [], set()
+
+    def visit(x):
+        if x in seen:
+            return
+        seen.add(x)
+        for f in by[x][3]:
+            visit(f)
+        order.append(x)
+    for n in nodes:
+        visit(n[0])
+    for x in order:
+        if x in mp:
+            continue
+        n = by[x]
+        name = None
+        if len(n[3]) == 1 and len(by[n[3][0]][3]) >= 2:
+            cand = "_".join(sorted(mp[f] for f in by[n[3][0]][3]))
+            if cand not in used:
+                name = cand
+        if name is None:
+            name = next(pool)
+            while name in used:
+                name = next(pool)
+        mp[x] = name
+        used.add(name)
+    out = _rename({"name": "top", "nodes": [by[x] for x in order]}, mp)
+    if not any(n[2] for n in out["nodes"]):
+        out["nodes"][-1][2] = True
+    return out
+
+
+def gen_wide_types():
+    """every multi-operand type with 3, 4 and 5 operands, gated by an enable: o = and(en, g)"""
+    out = []
+    for t in GATE2:
+        for k in (3, 4, 5):
+            nodes = [[f"i{j}", "input", False, []] for j in range(k)] + [["en", "input", False, []]]
+            nodes.append(["g", t, False, [f"i{j}" for j in range(k)]])
+            nodes.append(["o", "and", True, ["en", "g"]])
+            out.append({"name": "top", "nodes": nodes, "bbs": []})
+    return out
